@@ -61,7 +61,8 @@ class State:
                 res = ("nothing-left",)
             else:
                 try:
-                    k = (a.send if kind == "send" else a.send_stderr)(b"d" * n)
+                    # one send() never takes more than a packet: do not materialise gigabytes for "send all"
+                    k = (a.send if kind == "send" else a.send_stderr)(b"d" * min(n, self.P + 64, 1 << 17))
                     self.remaining -= k
                     self.sent_app += k
                     res = ("sent", k)
@@ -169,7 +170,7 @@ class State:
                     progressed = True
             if self.remaining > 0:
                 try:
-                    k = a.send(b"d" * self.remaining)
+                    k = a.send(b"d" * min(self.remaining, self.P + 64, 1 << 17))
                     if k:
                         self.remaining -= k
                         self.sent_app += k
